@@ -78,6 +78,16 @@ Theorem C13_reopen_then_no_orphan : forall (b64d : bytes -> option bytes) (utf8 
   initialize b64d utf8 capacity tree = Some (inr s) -> a_stop (cscan b64d utf8 capacity tree) = false ->
   forall es c', crun (s, repeat (PDone COk) n) es = Some c' -> NoOrphan c'.
 Proof. exact reopen_then_no_orphan. Qed.
+(* the premise "the scan ran to its end" follows from the directory's size: files that add up to less than twice the capacity
+   (as they do in a directory this cache filled under this capacity) *)
+Theorem C13_reopen_small_directory_no_orphan : forall (b64d : bytes -> option bytes) (utf8 : bytes -> bool),
+  (forall n b, b64d n = Some b -> b64pad b = n /\ Forall is_byte b) ->
+  forall capacity tree s n, TreeCanon tree -> NoDup (keys_of_tree b64d utf8 tree) -> DirAsWritten b64d utf8 capacity tree ->
+  (forall p kd f, In p tree -> In kd (p_keys p) -> In f (k_files kd) -> lenN (f_content f) <= DEFAULT_CHUNK_CACHE_CAPACITY) ->
+  tree_bytes tree < SCAN_STOP_FACTOR * capacity ->
+  initialize b64d utf8 capacity tree = Some (inr s) ->
+  forall es c', crun (s, repeat (PDone COk) n) es = Some c' -> NoOrphan c'.
+Proof. exact reopen_small_directory_no_orphan. Qed.
 Example C13_reopen_no_orphan_nonvacuous :
   TreeCanon rx_tree /\ NoDup (keys_of_tree rx_dec (fun _ => true) rx_tree) /\ DirAsWritten rx_dec (fun _ => true) 100 rx_tree
   /\ a_stop (cscan rx_dec (fun _ => true) 100 rx_tree) = false
@@ -93,3 +103,4 @@ Print Assumptions C13_quiescent_every_file_tracked.
 Print Assumptions C13_scan_accounting.
 Print Assumptions C13_reopen_then_no_orphan.
 Print Assumptions C13_reopen_no_orphan_nonvacuous.
+Print Assumptions C13_reopen_small_directory_no_orphan.
